@@ -623,7 +623,7 @@ fn run_actor_swarm(ctx: &Ctx, report: &mut Report) {
 fn run(ctx: &Ctx, report: &mut Report) {
     crate::util::silence_panics();
     run_actor_swarm(ctx, report);
-    super::live::run_live_family(ctx, report);
+    super::live::run_live_family(ctx, report, "C04");
     let all = [Op::InsA, Op::InsAb, Op::InsRoot, Op::DelA];
     let two_ops = [Op::InsAb, Op::DelA];
     if ctx.quick() {
@@ -638,7 +638,7 @@ fn run(ctx: &Ctx, report: &mut Report) {
 }
 
 fn replay(case: &Value) -> anyhow::Result<(bool, String)> {
-    if let Some(r) = super::live::replay_live(case)? {
+    if let Some(r) = super::live::replay_live(case, "C04")? {
         return Ok(r);
     }
     if let Some(c) = case.get("actor_held") {
